@@ -141,6 +141,13 @@ Theorem C18_cache_once_per_key C K R (key : C -> K) (keqb : K -> K -> bool) (f :
 Proof. intros H1 H2 H3. exact (cache_once_per_key key keqb f H1 H2 H3 cs). Qed.
 Print Assumptions C18_cache_once_per_key.
 
+(* arguments that cannot be hashed (numpy arrays, Series, sets) are evaluated on every call and never stored; when every
+   call is hashable this fallback never fires and the statement above applies *)
+Theorem C18_cache_unhashable_fallback C K R (key : C -> K) (keqb : K -> K -> bool) (f : nat -> C -> R) hashable (cs : list C) :
+  (forall c, In c cs -> hashable c = true) -> crunu key keqb f hashable cs = crun key keqb f cs.
+Proof. exact (crunu_hashable key keqb f hashable cs). Qed.
+Print Assumptions C18_cache_unhashable_fallback.
+
 (* the pinned _prehash flattens lists and dicts to tuples: distinct arguments as passed share a key;
    the repaired key (container kind kept) separates them and still identifies 1, 1.0 and True *)
 Theorem C18_cache_key_pinned_refuted :
